@@ -20,6 +20,9 @@ def value54(rng, g, d, single=False):
         r = min(r, 0.7)
     if r < 0.15:
         return b""
+    if r < 0.22:
+        # ordinary texts that mean something elsewhere (the placeholder of a key without value, printf's NULL, ...)
+        return rng.choice([b"_none_", b"(null)", b"NULL", b"none", b"~", b"-", b"0", b"false"])
     l0 = g.plain_value(allow_empty=False)
     if d != b" " and r > 0.75:
         lines = [l0]
@@ -61,7 +64,7 @@ def built(rng, sid):
         elif t < 0.8:
             s.add("SET", 0, "uint64", h(sec), h(k), str(rng.randint(0, 2**64 - 1)))
         else:
-            s.add("SET", 0, "bool", h(sec), h(k), h(rng.choice([b"yes", b"NO", b"True", b"0", b"1", b"false"])))
+            s.add("SET", 0, "bool", h(sec), h(k), h(rng.choice([b"yes", b"NO", b"True", b"0", b"1", b"false", b""])))
     return finish(s, d, c)
 
 
